@@ -193,6 +193,39 @@ def stepCons (d : ConsDrv) (a : Acc) (s : Step) : ConsDrv × Acc :=
     let engine := (applyCC d.engine implRet).1
     let a := a.spec s.lineNo "C01.engine-equals-store" (fmtPairs (ofVals (canonVals engine)) == fmtPairs (ofVals (canonVals t.cc)))
     ({ d' with engine := engine }, a)
+  | "cmkconn" => ({ d with f := after }, cmpCons a s.lineNo (consStateOf d) after)
+  | "cchaninit" =>
+    let st := consStateOf d
+    let connClient := fun (h : String) =>
+      ((cget d.f "conns").splitOn ",").findSome? fun t => match t.splitOn ":" with | [c, cl] => if c == h then some cl else none | _ => none
+    let pc := if cget d.f "pclient" == "-" || cget d.f "pclient" == "" then none else some (cget d.f "pclient")
+    let hops := (s.op.get "hops").splitOn "," |>.filter (· != "")
+    let ver := (s.op.get "ver").replace "_" " "
+    let okM := chanOpenInit st (s.op.get "order" == "ORDERED") (s.op.get "port") (s.op.get "cport") ver hops connClient pc
+    let a := (a.tag (if okM then "cons-chaninit-ok" else "cons-chaninit-rejected")).cmp s.lineNo "cons.chaninit.res" (if okM then "ok" else "err") res
+    -- C17: whatever the consumer ACCEPTS is an ordered consumer→provider channel, supported version, one hop over
+    -- the recorded provider client, and no provider channel is established yet
+    let a := a.spec s.lineNo "C17.cons-init-accept-only-if"
+      (res != "ok" || (st.pchan.isNone && s.op.get "order" == "ORDERED" && s.op.get "port" == "consumer" && s.op.get "cport" == "provider" &&
+        (ver == "1" || blank ver) && (match hops with | [h] => pc.isSome && connClient h == pc | _ => false)))
+      s!"{s.op.kv}"
+    let a := if okM then { a with nontrivial := a.nontrivial + 1 } else a
+    ({ d with f := after }, cmpCons a s.lineNo st after)
+  | "cchantry" | "cchanconfirm" =>
+    let a := a.cmp s.lineNo "cons.chantry.res" "err" res
+    ({ d with f := after }, cmpCons (a.spec s.lineNo "C17.cons-never-accepts-foreign-handshake" (res != "ok")) s.lineNo (consStateOf d) after)
+  | "cchanack" =>
+    let st := consStateOf d
+    let md := if s.op.get "md" == "garbage" then none else some (s.op.get "md")
+    let okM := chanOpenAck st md ((s.ob "r").get "tch" == "1") ((s.ob "r").get "known" == "1")
+    let a := (a.tag (if okM then "cons-chanack-ok" else "cons-chanack-rejected")).cmp s.lineNo "cons.chanack.res" (if okM then "ok" else "err") res
+    let a := a.spec s.lineNo "C17.cons-ack-only-without-channel" (res != "ok" || (st.pchan.isNone && md == some "1"))
+    ({ d with f := after }, cmpCons a s.lineNo st after)
+  | "ccloseinit" =>
+    let st := consStateOf d
+    let okM := chanCloseInit st (s.op.get "ch")
+    let a := a.cmp s.lineNo "cons.closeinit.res" (if okM then "ok" else "err") res
+    ({ d with f := after }, cmpCons (a.spec s.lineNo "C17.cons-provider-channel-not-closable" (res != "ok" || st.pchan != some (s.op.get "ch"))) s.lineNo st after)
   | "cfees" =>
     let cr := crOf d.f
     let m := { cr with fc := Rewards.addBal cr.fc (s.op.get "denom") (s.op.nat "amt") }
